@@ -470,7 +470,11 @@ func (nh *NodeHost) SyncPropose(ctx context.Context, session *client.Session, cm
 		u.stat("proposal-no-leader")
 		return sm.Result{}, ErrShardNotReady
 	}
-	switch u.proposalFault(s) {
+	pf := u.proposalFault(s)
+	if u.OnEvent != nil {
+		u.event("propose %s from %s len=%d fault=%d last=%d", s.Key, nh.addr, len(cmd), pf, s.last())
+	}
+	switch pf {
 	case FaultBusy:
 		u.stat("proposal-busy")
 		return sm.Result{}, ErrSystemBusy
